@@ -50,6 +50,8 @@ POSITIONS = {
     "default_apos": ("CREATE TABLE t (c0 int, c1 varchar(10) DEFAULT {L}, c2 int);\n-- the next table isn't used yet\nCREATE TABLE zz (q int);", {}),
     "comment_apos": ("CREATE TABLE t (c0 int, c1 varchar(10) COMMENT {L}, c2 int);\n-- the next table isn't used yet\nCREATE TABLE zz (q int);", {}),
     # a condition list that ends with an IN part (its text is assembled by a separate grammar action), inline and as a named table constraint
+    # an inline CHECK followed by another attribute of the same column (its text is built one reduction earlier)
+    "check_then_attr": ("CREATE TABLE t (c0 int, c1 varchar(10) CHECK (c1 <> {L}) NOT NULL, c2 int);", {}),
     "check_and_in": ("CREATE TABLE t (c0 int, c1 varchar(10) CHECK (c1 <> {L} AND c0 IN (1, 2)), c2 int);", {}),
     "check_and_in_named": ("CREATE TABLE t (c0 int, c1 varchar(10), c2 int, CONSTRAINT ck CHECK (c1 <> {L} AND c1 IN ('x', 'y')));", {}),
     # the literal comes after a code line whose trailing comment holds a lone apostrophe (same statement / an earlier statement)
@@ -107,6 +109,7 @@ def gen_cases(tier):
             cases.append({"kind": "num", "val": v, "ctx": ci})
         for ai in range(len(NUMALTER)):
             cases.append({"kind": "num", "val": v, "alter": ai})
+        cases.append({"kind": "num", "val": v, "alter": 0, "forcase": True})
     return cases
 
 
@@ -230,6 +233,12 @@ def evaluate(case):
         diffs = []
         try:
             d = r[1][0]["columns"][1]["default"]
+            if case.get("alter") == 0 and case.get("forcase"):
+                d = r[1][0]["alter"]["defaults"][-1]["value"]  # (FOR C1: the alter entry is judged, column matching by case is not promised)
+            elif case.get("alter") == 0:
+                d2 = r[1][0]["alter"]["defaults"][-1]["value"]
+                if not (isinstance(d2, int) and d2 == int(case["val"])):
+                    diffs.append(diff("numeric default in the alter section", "numeric-default-not-int", int(case["val"]), repr(d2)))
             if not (isinstance(d, int) and not isinstance(d, bool) and d == int(case["val"])):
                 diffs.append(diff("numeric default", "numeric-default-not-int", int(case["val"]), repr(d)))
         except Exception:  # noqa
@@ -298,7 +307,8 @@ def _set(v, path, val):
 
 def num_ddl(case):
     if "alter" in case:
-        return "CREATE TABLE t (c0 int, c1 int DEFAULT 10);\n" + NUMALTER[case["alter"]].format(v=case["val"])
+        st = NUMALTER[case["alter"]].format(v=case["val"])
+        return "CREATE TABLE t (c0 int, c1 int DEFAULT 10);\n" + (st.replace("FOR c1", "FOR C1") if case.get("forcase") else st)
     ty, tail = NUMCTX[case["ctx"]]
     return "CREATE TABLE t (c0 int, c1 %s DEFAULT %s%s);" % (ty, case["val"], tail)
 
